@@ -247,6 +247,7 @@ pub struct CaseStats {
     pub transfers: u32,
     pub joint_entered: u32,
     pub excluded_f3: u32,
+    pub excluded_f11: u32,
     pub excluded_f1: u32,
     pub excluded_other: u32,
     pub async_batches: u32,
@@ -263,6 +264,8 @@ pub struct CaseStats {
 pub const STOP_REMOVED: u32 = 1;
 pub const NO_F3_EXCLUSION: u32 = 2;
 pub const EXCLUDE_F3: u32 = 32;
+pub const EXCLUDE_F11: u32 = 64;
+pub const NO_F11_EXCLUSION: u32 = 128;
 pub const HOLD_F1: u32 = 4;
 pub const NO_F8_EXCLUSION: u32 = 8;
 pub const EXCLUDE_F8: u32 = 16;
@@ -1120,6 +1123,17 @@ impl World {
             if n.disk.app.applied > n.disk.last_index() {
                 self.stats.excluded_other += 1;
                 return;
+            }
+        }
+        // Known finding F11 (C02): a sole voter that elected itself inside campaign() is in the leader role
+        // before its term and vote are on disk; crashing it there lets another node lead the same term later.
+        if self.options & EXCLUDE_F11 != 0 && self.options & NO_F11_EXCLUSION == 0 {
+            let n = &self.nodes[ni];
+            if let Some(rn) = n.rn.as_ref() {
+                if rn.raft.state == StateRole::Leader && (n.disk.hs.term < rn.raft.term || n.disk.hs.vote != rn.raft.id) {
+                    self.stats.excluded_f11 += 1;
+                    return;
+                }
             }
         }
         self.stats.crashes += 1;
